@@ -65,6 +65,13 @@ def survivingValues (r : Request) (n : Bytes) : List Bytes :=
 /-- … and what `Header.Get` then returns -/
 def survivingFirst (r : Request) (n : Bytes) : Bytes := (survivingValues r n).headD []
 
+/-- the surviving values of a list-valued field combined into one value as RFC 9110 §5.3 says:
+    all field lines, in order, separated by ", " -/
+def survivingChain (r : Request) (n : Bytes) : Bytes := joinWith (bs ", ") (survivingValues r n)
+
+/-- … the same for all field lines of the name (not nominated by `Connection`) -/
+def chainOf (r : Request) (n : Bytes) : Bytes := joinWith (bs ", ") (inValues r n)
+
 /-- the upgrade the client asks for: the first `Upgrade` value when `Connection` holds the token
     `Upgrade`, "" otherwise (= no upgrade requested) -/
 def upgradeRequested (r : Request) : Bytes :=
@@ -116,9 +123,9 @@ def isFwd : Outcome → Bool
   | .forwarded _ _ => true
   | _ => false
 
-/-- requests of one keep-alive connection: the model has no per-connection state -/
-def processConnection (cfg : Cfg) (ctx : Ctx) (rs : List Request) : List Outcome :=
-  rs.map (processRequest cfg ctx)
+/-- requests of one keep-alive connection as items of `processConnection` (Model/Req.lean: the one
+    definition shared with C04, which also handles CONNECT / interception / tunnels) -/
+def reqItems (rs : List Request) : List ConnItem := rs.map .req
 
 end Req
 end FwdVerif
